@@ -23,10 +23,22 @@ Proof.
   intros [f0 H]. ev_start f0. change (String.eqb "[" "(") with false. change (String.eqb "[" "[") with true. cbv iota.
   rewrite H by lia. reflexivity.
 Qed.
-Lemma Ev_atom_set r x l r' : Ev (MElems "}" [] false) r (ETuple (x :: l), r') -> Ev MAtom (PK "{" :: r) (ESet (x :: l), r').
+(* `{`: a set display unless the first element is followed by a colon *)
+Definition first_not_key (r : list pt) : Prop :=
+  hd_is "*" r = true \/ exists k s1 r1, Ev (MExpr TOP) r (k, PK s1 :: r1) /\ String.eqb s1 ":" = false.
+
+Lemma Ev_atom_set r x l r' :
+  hd_is "}" r = false -> hd_is "**" r = false -> first_not_key r ->
+  Ev (MElems "}" [] false) r (ETuple (x :: l), r') -> Ev MAtom (PK "{" :: r) (ESet (x :: l), r').
 Proof.
-  intros [f0 H]. ev_start f0. change (String.eqb "{" "(") with false. change (String.eqb "{" "[") with false.
-  change (String.eqb "{" "{") with true. cbv iota. rewrite H by lia. reflexivity.
+  intros H1 H2 Hf [f0 H].
+  change (Ev MAtom (PK "{" :: r) (ESet (x :: l), r')).
+  destruct Hf as [Hs|[k [s1 [r1 [[f1 E1] Hne]]]]].
+  - ev_start f0. change (String.eqb "{" "(") with false. change (String.eqb "{" "[") with false.
+    change (String.eqb "{" "{") with true. cbv iota. rewrite H1, H2, Hs, H by lia. reflexivity.
+  - ev_start (Nat.max f0 f1). change (String.eqb "{" "(") with false. change (String.eqb "{" "[") with false.
+    change (String.eqb "{" "{") with true. cbv iota. rewrite H1, H2.
+    destruct (hd_is "*" r); [rewrite H by lia; reflexivity|]. rewrite E1 by lia. rewrite Hne, H by lia. reflexivity.
 Qed.
 
 (* one element of a display: `*v` or an expression *)
@@ -225,6 +237,113 @@ Proof.
     cbn [is_kwstart is_key] in H4. rewrite H4. rewrite E1 by lia. reflexivity.
 Qed.
 
+(* ---------- comprehension clauses ---------- *)
+Lemma Ev_atom_listcomp r x gs r' : Ev (MElems "]" [] false) r (GeneratorExp x gs, r') -> Ev MAtom (PK "[" :: r) (ListComp x gs, r').
+Proof.
+  intros [f0 H]. ev_start f0. change (String.eqb "[" "(") with false. change (String.eqb "[" "[") with true. cbv iota.
+  rewrite H by lia. reflexivity.
+Qed.
+Lemma Ev_atom_setcomp r x gs r' :
+  hd_is "}" r = false -> hd_is "**" r = false -> first_not_key r ->
+  Ev (MElems "}" [] false) r (GeneratorExp x gs, r') -> Ev MAtom (PK "{" :: r) (SetComp x gs, r').
+Proof.
+  intros H1 H2 Hf [f0 H].
+  destruct Hf as [Hs|[k [s1 [r1 [[f1 E1] Hne]]]]].
+  - ev_start f0. change (String.eqb "{" "(") with false. change (String.eqb "{" "[") with false.
+    change (String.eqb "{" "{") with true. cbv iota. rewrite H1, H2, Hs, H by lia. reflexivity.
+  - ev_start (Nat.max f0 f1). change (String.eqb "{" "(") with false. change (String.eqb "{" "[") with false.
+    change (String.eqb "{" "{") with true. cbv iota. rewrite H1, H2.
+    destruct (hd_is "*" r); [rewrite H by lia; reflexivity|]. rewrite E1 by lia. rewrite Hne, H by lia. reflexivity.
+Qed.
+
+(* dict displays *)
+Lemma Ev_atom_dict0 r : Ev MAtom (PK "{" :: PK "}" :: r) (EDict [] [], r).
+Proof. ev_start 0. reflexivity. Qed.
+
+Lemma Ev_atom_dict_star r res :
+  hd_is "}" r = false -> hd_is "**" r = true -> Ev (MDict [] []) r res -> Ev MAtom (PK "{" :: r) res.
+Proof.
+  intros H1 H2 [f0 H]. ev_start f0. change (String.eqb "{" "(") with false. change (String.eqb "{" "[") with false.
+  change (String.eqb "{" "{") with true. cbv iota. rewrite H1, H2. apply H. lia.
+Qed.
+
+Lemma Ev_atom_dict_key r k r1 v s2 r2 res :
+  hd_is "}" r = false -> hd_is "**" r = false -> hd_is "*" r = false ->
+  Ev (MExpr TOP) r (k, PK ":" :: r1) -> Ev (MExpr TOP) r1 (v, PK s2 :: r2) -> String.eqb s2 "for" = false ->
+  Ev (MDSep [Some k] [v]) (PK s2 :: r2) res -> Ev MAtom (PK "{" :: r) res.
+Proof.
+  intros H1 H2 H3 [f1 E1] [f2 E2] Hne [f3 E3]. ev_start (Nat.max f1 (Nat.max f2 f3)).
+  change (String.eqb "{" "(") with false. change (String.eqb "{" "[") with false. change (String.eqb "{" "{") with true. cbv iota.
+  rewrite H1, H2, H3, E1 by lia. change (String.eqb ":" ":") with true. cbv iota. rewrite E2 by lia. rewrite Hne. apply E3. lia.
+Qed.
+
+Lemma Ev_atom_dictcomp r k r1 v r2 fn gens r3 :
+  hd_is "}" r = false -> hd_is "**" r = false -> hd_is "*" r = false ->
+  Ev (MExpr TOP) r (k, PK ":" :: r1) -> Ev (MExpr TOP) r1 (v, PK "for" :: r2) ->
+  Ev (MGens []) (PK "for" :: r2) (GeneratorExp fn gens, PK "}" :: r3) -> Ev MAtom (PK "{" :: r) (DictComp k v gens, r3).
+Proof.
+  intros H1 H2 H3 [f1 E1] [f2 E2] [f3 E3]. ev_start (Nat.max f1 (Nat.max f2 f3)).
+  change (String.eqb "{" "(") with false. change (String.eqb "{" "[") with false. change (String.eqb "{" "{") with true. cbv iota.
+  rewrite H1, H2, H3, E1 by lia. change (String.eqb ":" ":") with true. cbv iota. rewrite E2 by lia.
+  change (String.eqb "for" "for") with true. cbv iota. rewrite E3 by lia. reflexivity.
+Qed.
+
+Lemma Ev_dict_close ks vs r : Ev (MDict ks vs) (PK "}" :: r) (EDict (rev ks) (rev vs), r).
+Proof. ev_start 0. reflexivity. Qed.
+
+Lemma Ev_dict_star ks vs ts v r res :
+  hd_is "}" ts = false -> hd_is "**" ts = true -> Ev (MExpr slot_Dict_starvalue) (tl ts) (v, r) ->
+  Ev (MDSep (None :: ks) (v :: vs)) r res -> Ev (MDict ks vs) ts res.
+Proof. intros H1 H2 [f1 E1] [f2 E2]. ev_start (Nat.max f1 f2). rewrite H1, H2, E1 by lia. apply E2. lia. Qed.
+
+Lemma Ev_dict_item ks vs ts k r1 v r2 res :
+  hd_is "}" ts = false -> hd_is "**" ts = false -> Ev (MExpr TOP) ts (k, PK ":" :: r1) -> Ev (MExpr TOP) r1 (v, r2) ->
+  Ev (MDSep (Some k :: ks) (v :: vs)) r2 res -> Ev (MDict ks vs) ts res.
+Proof.
+  intros H1 H2 [f1 E1] [f2 E2] [f3 E3]. ev_start (Nat.max f1 (Nat.max f2 f3)). rewrite H1, H2, E1 by lia.
+  change (String.eqb ":" ":") with true. cbv iota. rewrite E2 by lia. apply E3. lia.
+Qed.
+
+Lemma Ev_dsep_comma ks vs r res : Ev (MDict ks vs) r res -> Ev (MDSep ks vs) (PK "," :: r) res.
+Proof. intros [f1 E1]. ev_start f1. change (String.eqb "," ",") with true. cbv iota. apply E1. lia. Qed.
+Lemma Ev_dsep_close ks vs r : Ev (MDSep ks vs) (PK "}" :: r) (EDict (rev ks) (rev vs), r).
+Proof. ev_start 0. reflexivity. Qed.
+
+Lemma Ev_elems_comp cl cm ts e r fn gens r2 :
+  hd_is cl ts = false -> hd_is "*" ts = false -> is_starred e = false ->
+  String.eqb "for" cl = false ->
+  Ev (MExpr TOP) ts (e, PK "for" :: r) ->
+  Ev (MGens []) (PK "for" :: r) (GeneratorExp fn gens, PK cl :: r2) ->
+  Ev (MElems cl [] cm) ts (GeneratorExp e gens, r2).
+Proof.
+  intros Hh Hs Hns Hne [f1 H1] [f2 H2]. ev_start (Nat.max f1 f2). rewrite Hh, Hs, H1 by lia.
+  change (String.eqb "for" ",") with false. rewrite Hne. change (String.eqb "for" "for") with true. cbv iota.
+  rewrite Hns, H2 by lia. rewrite String.eqb_refl. reflexivity.
+Qed.
+
+Lemma Ev_gens_stop acc ts : hd_is "for" ts = false -> Ev (MGens acc) ts (GeneratorExp (Name "") (rev acc), ts).
+Proof. intros H. ev_start 0. rewrite H. reflexivity. Qed.
+
+Lemma Ev_gens_for acc r t r1 i r2 res :
+  Ev (MExpr slot_Compare_left) r (t, PK "in" :: r1) -> Ev (MExpr slot_comp_iter) r1 (i, r2) ->
+  Ev (MIfs t i [] acc) r2 res -> Ev (MGens acc) (PK "for" :: r) res.
+Proof.
+  intros [f1 H1] [f2 H2] [f3 H3]. ev_start (Nat.max f1 (Nat.max f2 f3)). cbn [hd_is is_key tl].
+  change (String.eqb "for" "for") with true. cbv iota. rewrite H1 by lia. change (String.eqb "in" "in") with true. cbv iota.
+  rewrite H2 by lia. apply H3. lia.
+Qed.
+
+Lemma Ev_ifs_if t i ifs acc r c r' res :
+  Ev (MExpr slot_comp_if) r (c, r') -> Ev (MIfs t i (c :: ifs) acc) r' res -> Ev (MIfs t i ifs acc) (PK "if" :: r) res.
+Proof.
+  intros [f1 H1] [f2 H2]. ev_start (Nat.max f1 f2). cbn [hd_is is_key tl]. change (String.eqb "if" "if") with true. cbv iota.
+  rewrite H1 by lia. apply H2. lia.
+Qed.
+
+Lemma Ev_ifs_done t i ifs acc ts res :
+  hd_is "if" ts = false -> Ev (MGens ((t, i, rev ifs, false) :: acc)) ts res -> Ev (MIfs t i ifs acc) ts res.
+Proof. intros H [f1 H1]. ev_start f1. rewrite H. apply H1. lia. Qed.
+
 (* the chain flag only matters when the chain's own operator follows *)
 Definition chain_free (ch : chain) (ts : list pt) : bool :=
   match ch, classify ts with
@@ -358,7 +477,7 @@ Proof. destruct o; reflexivity. Qed.
 Lemma prefix_name i r : nowal r = true -> classify_prefix (PN i :: r) = PAtom.
 Proof. unfold nowal. intros H. apply negb_true_iff in H. cbn [classify_prefix]. rewrite H. reflexivity. Qed.
 
-Definition closer (k : string) : bool := existsb (String.eqb k) [")"; ","; "]"; "else"; "}"].
+Definition closer (k : string) : bool := existsb (String.eqb k) [")"; ","; "]"; "else"; "}"; "for"; ":"].
 
 Lemma continues_closer m k r : closer k = true -> continues m (PK k :: r) = false.
 Proof.
@@ -499,6 +618,7 @@ Proof.
   - (* List *) eexists _, _. split; [reflexivity|]. split; [reflexivity|discriminate].
   - (* Tuple *) destruct l as [|x [|y t]]; eexists _, _; (split; [reflexivity|]); (split; [reflexivity|discriminate]).
   - (* Set *) eexists _, _. split; [reflexivity|]. split; [reflexivity|discriminate].
+  - (* Dict *) eexists _, _. split; [reflexivity|]. split; [reflexivity|discriminate].
   - (* Compare *) apply andb_prop in Hc as [Hc _]. apply andb_prop in Hc as [Hc _]. apply andb_prop in Hc as [Hc1 _].
     rewrite <- app_assoc. apply (head_ok_child e); [exact (ec_nostar _ Hc1)|]. apply IHe. exact (ec_core _ Hc1).
   - (* Attribute *) rewrite <- app_assoc. apply pparen_head.
@@ -509,6 +629,9 @@ Proof.
     apply (head_ok_child e); [exact (ec_nostar _ Hc1)|]. apply IHe. exact (ec_core _ Hc1).
   - (* NamedExpr *) eexists _, _. split; [reflexivity|]. split; [reflexivity|discriminate].
   - (* Lambda *) eexists _, _. split; [reflexivity|]. split; [reflexivity|discriminate].
+  - (* ListComp *) eexists _, _. split; [reflexivity|]. split; [reflexivity|discriminate].
+  - (* SetComp *) eexists _, _. split; [reflexivity|]. split; [reflexivity|discriminate].
+  - (* DictComp *) eexists _, _. split; [reflexivity|]. split; [reflexivity|discriminate].
   - (* IfExp *) apply andb_prop in Hc as [Hc _]. apply andb_prop in Hc as [_ Hc2]. rewrite <- app_assoc.
     apply (head_ok_child e2); [exact (ec_nostar _ Hc2)|]. apply IHe2. exact (ec_core _ Hc2).
 Qed.
@@ -783,6 +906,18 @@ Lemma elem_head_not k w s rest : elemP w ->
   existsb (String.eqb k) ["("; "lambda"; "not"; "-"; "+"; "~"; "["; "{"; "*"] = false -> hd_is k (pp s w ++ rest) = false.
 Proof. intros [Hc _] Hk. apply pp_head_not_key; assumption. Qed.
 
+Lemma first_elem_not_key s x t rest : elemP x -> s <= TOP ->
+  first_not_key (join [PK ","] (map (pp s) (x :: t)) ++ PK "}" :: rest).
+Proof.
+  intros Hx Hs.
+  assert (G : forall k r1, closer k = true -> String.eqb k ":" = false -> first_not_key (pp s x ++ PK k :: r1)).
+  { intros k r1 Hk Hne. destruct (elem_closed x s k r1 Hx Hk Hs) as [[H1 _]|[_ H2]]; [left; exact H1|].
+    right. exists x, k, r1. split; [exact H2|exact Hne]. }
+  destruct t as [|y t'].
+  - cbn [map join]. apply G; reflexivity.
+  - cbn [map]. rewrite join_cons2. rewrite <- !app_assoc. cbn [app]. apply G; reflexivity.
+Qed.
+
 Lemma elems_chain cl s rest :
   closer cl = true -> String.eqb cl "," = false -> s <= TOP ->
   existsb (String.eqb cl) ["("; "lambda"; "not"; "-"; "+"; "~"; "["; "{"; "*"] = false ->
@@ -854,6 +989,161 @@ Lemma fold_kw ks : forall acc kws,
   fold_left (fun st i => iapply i st) (map IKw ks) (acc, kws) = (acc, rev ks ++ kws).
 Proof. induction ks as [|a t IH]; intros acc kws; [reflexivity|]. cbn [map fold_left iapply fst snd]. rewrite IH. cbn [rev]. rewrite <- app_assoc. reflexivity. Qed.
 
+(* ---------- comprehension clauses ---------- *)
+Definition opP (w : expr) : Prop := core w = true /\ is_starred w = false /\ A_stmt w.
+Definition genP (g : comprehension) : Prop :=
+  match g with
+  | (t, i, ifs, a) => a = false /\ (core t = true /\ is_target t = true /\ A_stmt t) /\ opP i /\ Forall opP ifs
+  end.
+
+Lemma ctx_if_comp r : rest_okb slot_comp_iter (PK "if" :: r) = true.
+Proof.
+  unfold rest_okb. apply andb_true_intro. split; [reflexivity|].
+  apply forallb_forall. intros d _. destruct d as [o'|o'|o'| | | |]; try destruct o'; vm_compute; reflexivity.
+Qed.
+
+(* the iterable or a condition of a clause, followed by `if`, `for` or the closing bracket *)
+Lemma comp_child e k rest : opP e -> (closer k = true \/ k = "if") ->
+  Ev (MExpr slot_comp_iter) (pp slot_comp_iter e ++ PK k :: rest) (e, PK k :: rest).
+Proof.
+  intros [Hc [Hns HA]] [Hk| ->].
+  - apply closed_child; [exact Hc|exact Hns|exact HA|exact Hk|right; apply Nat.le_refl].
+  - apply (child_of_A e Hc Hns HA slot_comp_iter slot_comp_iter).
+    + intros Hle. split; [exact Hle|]. apply (safe_of_rest_ok e Hc slot_comp_iter); [exact Hle|apply ctx_if_comp].
+    + apply Ev_loop_stop. reflexivity.
+Qed.
+
+Lemma target_prec t : is_target t = true -> node_prec t = 0.
+Proof. destruct t; try discriminate; reflexivity. Qed.
+Lemma target_nostar t : is_target t = true -> is_starred t = false.
+Proof. destruct t; try discriminate; reflexivity. Qed.
+Lemma target_safe t rest : is_target t = true -> hd_is ":=" rest = false -> safe t rest = true.
+Proof. destruct t; try discriminate; intros _ H; cbn [safe]; try reflexivity. unfold nowal. rewrite H. reflexivity. Qed.
+
+Lemma target_child t rest : core t = true -> is_target t = true -> A_stmt t ->
+  Ev (MExpr slot_Compare_left) (pp slot_comp_target t ++ PK "in" :: rest) (t, PK "in" :: rest).
+Proof.
+  intros Hc Ht HA. apply (child_of_A t Hc (target_nostar _ Ht) HA slot_comp_target slot_Compare_left).
+  - intros _. split; [rewrite (target_prec _ Ht); lia|apply target_safe; [exact Ht|reflexivity]].
+  - apply Ev_loop_stop. reflexivity.
+Qed.
+
+Definition iftoks (ifs : list expr) : list pt := flat_map (fun c => PK "if" :: pp slot_comp_if c) ifs.
+
+Lemma iftoks_cons c t rest : iftoks (c :: t) ++ rest = PK "if" :: pp slot_comp_if c ++ (iftoks t ++ rest).
+Proof. unfold iftoks. cbn [flat_map app]. rewrite <- app_assoc. reflexivity. Qed.
+
+Lemma ifs_chain t i acc k rest res : closer k = true ->
+  forall ifs done, Forall opP ifs ->
+    Ev (MGens ((t, i, rev done ++ ifs, false) :: acc)) (PK k :: rest) res ->
+    Ev (MIfs t i done acc) (iftoks ifs ++ PK k :: rest) res.
+Proof.
+  intros Hk. induction ifs as [|c t' IH]; intros done HF H.
+  - cbn [iftoks flat_map app]. apply Ev_ifs_done.
+    + unfold closer in Hk. cbn [existsb] in Hk. cbn [hd_is is_key].
+      repeat (apply orb_prop in Hk as [Hk|Hk]; [apply String.eqb_eq in Hk; subst k; reflexivity|]). discriminate.
+    + rewrite app_nil_r in H. exact H.
+  - inversion HF as [|? ? Hc HF']; subst. rewrite iftoks_cons.
+    assert (Hnext : Ev (MIfs t i (c :: done) acc) (iftoks t' ++ PK k :: rest) res).
+    { apply IH; [exact HF'|]. cbn [rev]. rewrite <- app_assoc. exact H. }
+    change slot_comp_if with slot_comp_iter. destruct t' as [|c2 t''].
+    + eapply Ev_ifs_if; [|exact Hnext]. change slot_comp_if with slot_comp_iter.
+      cbn [iftoks flat_map app]. apply (comp_child c k rest); [exact Hc|left; exact Hk].
+    + eapply Ev_ifs_if; [|exact Hnext]. change slot_comp_if with slot_comp_iter. rewrite iftoks_cons.
+      apply (comp_child c "if"); [exact Hc|right; reflexivity].
+Qed.
+
+Lemma gtoks_cons g gs rest : gtoks (g :: gs) ++ rest = gtok g ++ (gtoks gs ++ rest).
+Proof. unfold gtoks. cbn [flat_map]. rewrite <- app_assoc. reflexivity. Qed.
+
+Lemma gtok_unfold t i ifs rest :
+  gtok (t, i, ifs, false) ++ rest =
+  PK "for" :: pp slot_comp_target t ++ PK "in" :: pp slot_comp_iter i ++ (iftoks ifs ++ rest).
+Proof. unfold gtok, iftoks. cbn [app]. rewrite <- app_assoc. cbn [app]. rewrite <- app_assoc. reflexivity. Qed.
+
+Lemma tail_form cl rest t' : closer cl = true -> Forall genP t' ->
+  exists k restT, gtoks t' ++ PK cl :: rest = PK k :: restT /\ closer k = true.
+Proof.
+  intros Hcl HF. destruct t' as [|g2 t''].
+  - exists cl, rest. split; [reflexivity|exact Hcl].
+  - destruct g2 as [[[t2 i2] ifs2] a2]. inversion HF as [|? ? Hg2 _]; subst. destruct Hg2 as [-> _].
+    rewrite gtoks_cons, gtok_unfold. eexists _, _. split; reflexivity.
+Qed.
+
+Lemma gens_chain cl rest : closer cl = true -> hd_is "for" (PK cl :: rest) = false ->
+  forall gs acc, Forall genP gs ->
+    Ev (MGens acc) (gtoks gs ++ PK cl :: rest) (GeneratorExp (Name "") (rev acc ++ gs), PK cl :: rest).
+Proof.
+  intros Hcl Hnf. induction gs as [|g t' IH]; intros acc HF.
+  - cbn [gtoks flat_map app]. rewrite app_nil_r. apply Ev_gens_stop. exact Hnf.
+  - inversion HF as [|? ? Hg HF']; subst. destruct g as [[[t i] ifs] a]. destruct Hg as [-> [[Hct [Htt HAt]] [Hi Hifs]]].
+    specialize (IH ((t, i, ifs, false) :: acc) HF'). cbn [rev] in IH. rewrite <- app_assoc in IH. cbn [app] in IH.
+    destruct (tail_form cl rest t' Hcl HF') as [k [restT [ET Hk]]]. rewrite ET in IH.
+    rewrite gtoks_cons, gtok_unfold, ET.
+    assert (Hafter : Ev (MIfs t i [] acc) (iftoks ifs ++ PK k :: restT)
+                        (GeneratorExp (Name "") (rev acc ++ (t, i, ifs, false) :: t'), PK cl :: rest)).
+    { apply (ifs_chain t i acc k restT _ Hk ifs []); [exact Hifs|]. cbn [rev app]. exact IH. }
+    destruct ifs as [|c ifs'].
+    + cbn [iftoks flat_map app] in *. eapply Ev_gens_for; [apply target_child; assumption| |exact Hafter].
+      apply (comp_child i k restT); [exact Hi|left; exact Hk].
+    + rewrite iftoks_cons in *. eapply Ev_gens_for; [apply target_child; assumption| |exact Hafter].
+      apply (comp_child i "if"); [exact Hi|right; reflexivity].
+Qed.
+
+(* ---------- dict displays ---------- *)
+Definition dkeyP (k : option expr) : Prop := match k with Some x => opP x | None => True end.
+
+Definition dtail (items : list (list pt)) : list pt := flat_map (fun it => PK "," :: it) items.
+Lemma join_dtail (it : list pt) items : join [PK ","] (it :: items) = it ++ dtail items.
+Proof.
+  revert it. induction items as [|i2 t IH]; intros it; [cbn [join dtail flat_map]; rewrite app_nil_r; reflexivity|].
+  rewrite join_cons2, IH. reflexivity.
+Qed.
+Lemma dtail_cons it items rest : dtail (it :: items) ++ rest = PK "," :: it ++ (dtail items ++ rest).
+Proof. unfold dtail. cbn [flat_map app]. rewrite <- app_assoc. reflexivity. Qed.
+
+Lemma ditems_some k ks v vs : ditems (Some k :: ks) (v :: vs) = (pp slot_Dict_key k ++ PK ":" :: pp slot_Dict_value v) :: ditems ks vs.
+Proof. reflexivity. Qed.
+Lemma ditems_none ks v vs : ditems (None :: ks) (v :: vs) = (PK "**" :: pp slot_Dict_starvalue v) :: ditems ks vs.
+Proof. reflexivity. Qed.
+
+(* the tokens after an item start with `,` or `}` *)
+Lemma dtail_head items rest : exists k r, dtail items ++ PK "}" :: rest = PK k :: r /\ (k = "," \/ k = "}").
+Proof. destruct items as [|i t]; [exists "}", rest; split; [reflexivity|right; reflexivity]|]. rewrite dtail_cons. eexists _, _. split; [reflexivity|left; reflexivity]. Qed.
+
+Lemma dict_item_ev k v accK accV tail res :
+  dkeyP k -> opP v -> (exists c r, tail = PK c :: r /\ (c = "," \/ c = "}")) ->
+  Ev (MDSep (k :: accK) (v :: accV)) tail res ->
+  Ev (MDict accK accV)
+     (match k with Some x => pp slot_Dict_key x ++ PK ":" :: pp slot_Dict_value v | None => PK "**" :: pp slot_Dict_starvalue v end ++ tail) res.
+Proof.
+  intros Hk [Cv [Nv Av]] [c [r [-> Hc]]] Hsep.
+  assert (Hcl : closer c = true) by (destruct Hc; subst; reflexivity).
+  destruct k as [x|].
+  - destruct Hk as [Cx [Nx Ax]]. rewrite <- app_assoc. cbn [app].
+    eapply Ev_dict_item; [apply pp_head_not_key; [exact Cx|reflexivity]|apply pp_head_not_key; [exact Cx|reflexivity]| | |exact Hsep].
+    + apply closed_child; [exact Cx|exact Nx|exact Ax|reflexivity|left; apply Nat.le_refl].
+    + apply closed_child; [exact Cv|exact Nv|exact Av|exact Hcl|left; apply Nat.le_refl].
+  - cbn [app]. eapply Ev_dict_star; [reflexivity|reflexivity| |exact Hsep]. cbn [tl].
+    apply closed_child; [exact Cv|exact Nv|exact Av|exact Hcl|right; apply Nat.le_refl].
+Qed.
+
+Lemma dsep_chain rest : forall ks vs accK accV,
+  length ks = length vs -> Forall dkeyP ks -> Forall opP vs ->
+  Ev (MDSep accK accV) (dtail (ditems ks vs) ++ PK "}" :: rest) (EDict (rev accK ++ ks) (rev accV ++ vs), rest).
+Proof.
+  induction ks as [|k ks' IH]; intros vs accK accV Hlen HK HV.
+  - destruct vs; [|discriminate]. cbn [ditems ditems_t map dtail flat_map app]. rewrite !app_nil_r. apply Ev_dsep_close.
+  - destruct vs as [|v vs']; [discriminate|]. injection Hlen as Hlen.
+    inversion HK as [|? ? Hk HK']; subst. inversion HV as [|? ? Hv HV']; subst.
+    assert (E : ditems (k :: ks') (v :: vs') =
+                (match k with Some x => pp slot_Dict_key x ++ PK ":" :: pp slot_Dict_value v | None => PK "**" :: pp slot_Dict_starvalue v end)
+                :: ditems ks' vs') by (destruct k; reflexivity).
+    rewrite E, dtail_cons. apply Ev_dsep_comma.
+    apply dict_item_ev; [exact Hk|exact Hv|apply dtail_head|].
+    specialize (IH vs' (k :: accK) (v :: accV) Hlen HK' HV'). cbn [rev] in IH. rewrite <- !app_assoc in IH. exact IH.
+Qed.
+
 Lemma safe_parts d rest (b : bool) : edge d rest && b = true -> edge d rest = true /\ b = true.
 Proof. intros H. apply andb_prop in H. exact H. Qed.
 
@@ -888,6 +1178,25 @@ Proof.
 Qed.
 
 Ltac atom_case HA := cbn [app]; eapply Ev_expr_atom; [reflexivity|HA|].
+
+Lemma Forall_P_gens gs : Pg P_stmt gs ->
+  forallb (fun g : comprehension => match g with
+                    | (t, i, ifs, a) =>
+                        core t && is_target t && core i && negb (is_starred i) &&
+                        forallb (fun c => core c && negb (is_starred c)) ifs && negb a
+                    end) gs = true ->
+  Forall genP gs.
+Proof.
+  unfold Pg. intros HF Hc. rewrite forallb_forall in Hc. rewrite Forall_forall in HF |- *. intros g Hg.
+  specialize (HF g Hg). specialize (Hc g Hg). destruct g as [[[t i] ifs] a]. destruct HF as [Pt [Pi Pifs]].
+  apply andb_prop in Hc as [Hc Ha]. apply andb_prop in Hc as [Hc Hifs]. apply andb_prop in Hc as [Hc Hni].
+  apply andb_prop in Hc as [Hc Hci]. apply andb_prop in Hc as [Hct Htt].
+  apply negb_true_iff in Ha. subst a. split; [reflexivity|]. split.
+  - split; [exact Hct|]. split; [exact Htt|]. pose proof (Pt Hct) as Ht. destruct t; try exact Ht; discriminate.
+  - split.
+    + apply P_use; [exact Pi|]. rewrite Hci, Hni. reflexivity.
+    + apply Forall_P_ops; assumption.
+Qed.
 
 Theorem A_all : forall e, P_stmt e.
 Proof.
@@ -945,9 +1254,43 @@ Proof.
       unfold finish. cbn [length Nat.leb orb negb andb]. rewrite andb_false_r. rewrite app_nil_r, rev_involutive. reflexivity.
   - (* Set *) apply andb_prop in Hc as [Hlen Hc]. unfold Pl in H. pose proof (Forall_P_elems _ H Hc) as HF.
     destruct l as [|x t]; [discriminate|]. cbn [app]. rewrite <- app_assoc. cbn [app].
-    eapply Ev_expr_atom; [reflexivity| |exact Hloop]. apply Ev_atom_set.
+    eapply Ev_expr_atom; [reflexivity| |exact Hloop].
+    inversion HF as [|? ? Hx HFt]; subst.
+    apply Ev_atom_set.
+    { change (hd_is "}" (join [PK ","] (map (pp slot_Set_elt) (x :: t)) ++ PK "}" :: rest) = false).
+      destruct t as [|y t']; [cbn [map join]|cbn [map]; rewrite join_cons2, <- !app_assoc]; apply elem_head_not; [exact Hx|reflexivity|exact Hx|reflexivity]. }
+    { destruct t as [|y t']; [cbn [map join]|cbn [map]; rewrite join_cons2, <- !app_assoc]; apply elem_head_not; [exact Hx|reflexivity|exact Hx|reflexivity]. }
+    { apply first_elem_not_key; [exact Hx|vm_compute; lia]. }
     apply (elems_chain "}" slot_Set_elt rest); try reflexivity; [vm_compute; lia|discriminate|exact HF|].
     unfold finish. cbn [String.eqb Ascii.eqb Bool.eqb andb]. rewrite app_nil_r, rev_involutive. reflexivity.
+  - (* Dict *) apply andb_prop in Hc as [Hc Hvs]. apply andb_prop in Hc as [Hlen Hks]. apply Nat.eqb_eq in Hlen.
+    assert (HK : Forall dkeyP ks).
+    { rewrite forallb_forall in Hks. rewrite Forall_forall in H |- *. intros k Hk. specialize (H k Hk). specialize (Hks k Hk).
+      destruct k as [x|]; [|exact I]. cbn [dkeyP]. apply P_use; assumption. }
+    assert (HV : Forall opP vs) by (unfold Pl in H0; apply Forall_P_ops; assumption).
+    cbn [app]. rewrite <- app_assoc. cbn [app].
+    eapply Ev_expr_atom; [reflexivity| |exact Hloop].
+    destruct ks as [|k ks']; destruct vs as [|v vs']; try discriminate.
+    + cbn [ditems ditems_t map join app]. apply Ev_atom_dict0.
+    + injection Hlen as Hlen. inversion HK as [|? ? Hk HK']; subst. inversion HV as [|? ? Hv HV']; subst.
+      assert (E : ditems (k :: ks') (v :: vs') =
+                  (match k with Some x => pp slot_Dict_key x ++ PK ":" :: pp slot_Dict_value v | None => PK "**" :: pp slot_Dict_starvalue v end)
+                  :: ditems ks' vs') by (destruct k; reflexivity).
+      rewrite E, join_dtail, <- app_assoc.
+      pose proof (dsep_chain rest ks' vs' [k] [v] Hlen HK' HV') as Hrest. cbn [rev app] in Hrest.
+      destruct (dtail_head (ditems ks' vs') rest) as [c [r [Ec Hc]]]. rewrite Ec in Hrest |- *.
+      assert (Hcl : closer c = true) by (destruct Hc; subst; reflexivity).
+      destruct Hv as [Cv [Nv Av]].
+      destruct k as [x|].
+      * destruct Hk as [Cx [Nx Ax]]. rewrite <- app_assoc. cbn [app].
+        eapply Ev_atom_dict_key; [apply pp_head_not_key; [exact Cx|reflexivity]|apply pp_head_not_key; [exact Cx|reflexivity]
+                                 |apply pp_head_nostar; assumption| | | |exact Hrest].
+        -- apply closed_child; [exact Cx|exact Nx|exact Ax|reflexivity|left; apply Nat.le_refl].
+        -- apply closed_child; [exact Cv|exact Nv|exact Av|exact Hcl|left; apply Nat.le_refl].
+        -- destruct Hc; subst; reflexivity.
+      * cbn [app]. apply Ev_atom_dict_star; [reflexivity|reflexivity|].
+        eapply Ev_dict_star; [reflexivity|reflexivity| |exact Hrest]. cbn [tl].
+        apply closed_child; [exact Cv|exact Nv|exact Av|exact Hcl|right; apply Nat.le_refl].
   - (* Compare *) apply andb_prop in Hc as [Hc Hcs]. apply andb_prop in Hc as [Hc Hlen1]. apply andb_prop in Hc as [Hcl Hlen].
     destruct (P_use e IHe Hcl) as [C [N A]].
     apply Nat.eqb_eq in Hlen. cbn [safe] in Hs. apply safe_parts in Hs as [He Hsub]. cbn [node_prec] in Hp.
@@ -1041,6 +1384,53 @@ Proof.
     cbn [safe] in Hs. apply safe_parts in Hs as [He Hsub]. cbn [node_prec] in Hp. cbn [app].
     eapply Ev_expr_lam; [exact Hp| |exact Hloop].
     apply right_child; [exact C|exact N|exact A|exact Hsub|exact (edge_stop _ _ He)].
+  - (* ListComp *) apply andb_prop in Hc as [Hc Hgs]. apply andb_prop in Hc as [Hcx Hlen].
+    destruct (P_use e IHe Hcx) as [C [N A]]. pose proof (Forall_P_gens _ H Hgs) as HG.
+    cbn [app]. rewrite <- !app_assoc. cbn [app].
+    eapply Ev_expr_atom; [reflexivity| |exact Hloop]. apply Ev_atom_listcomp.
+    destruct gs as [|g1 gt]; [discriminate|].
+    destruct g1 as [[[t1 i1] ifs1] a1]. inversion HG as [|? ? Hg1 _]; subst. destruct Hg1 as [-> _].
+    eapply (Ev_elems_comp "]" false _ e _ (Name "")).
+    + apply pp_head_not_key; [exact C|reflexivity].
+    + apply pp_head_nostar; assumption.
+    + exact N.
+    + reflexivity.
+    + rewrite gtoks_cons, gtok_unfold. apply closed_child; [exact C|exact N|exact A|reflexivity|left; apply Nat.le_refl].
+    + rewrite <- gtok_unfold, <- gtoks_cons. apply (gens_chain "]" rest eq_refl eq_refl _ [] HG).
+  - (* SetComp *) apply andb_prop in Hc as [Hc Hgs]. apply andb_prop in Hc as [Hcx Hlen].
+    destruct (P_use e IHe Hcx) as [C [N A]]. pose proof (Forall_P_gens _ H Hgs) as HG.
+    cbn [app]. rewrite <- !app_assoc. cbn [app].
+    eapply Ev_expr_atom; [reflexivity| |exact Hloop].
+    destruct gs as [|g1 gt]; [discriminate|].
+    destruct g1 as [[[t1 i1] ifs1] a1]. inversion HG as [|? ? Hg1 _]; subst. destruct Hg1 as [-> _].
+    assert (Hfirst : Ev (MExpr TOP) (pp slot_SetComp_elt e ++ gtoks ((t1, i1, ifs1, false) :: gt) ++ PK "}" :: rest)
+                        (e, gtoks ((t1, i1, ifs1, false) :: gt) ++ PK "}" :: rest)).
+    { rewrite gtoks_cons, gtok_unfold. apply closed_child; [exact C|exact N|exact A|reflexivity|left; apply Nat.le_refl]. }
+    apply Ev_atom_setcomp.
+    { apply pp_head_not_key; [exact C|reflexivity]. }
+    { apply pp_head_not_key; [exact C|reflexivity]. }
+    { right. rewrite gtoks_cons, gtok_unfold in Hfirst |- *. eexists _, _, _. split; [exact Hfirst|reflexivity]. }
+    eapply (Ev_elems_comp "}" false _ e _ (Name "")).
+    + apply pp_head_not_key; [exact C|reflexivity].
+    + apply pp_head_nostar; assumption.
+    + exact N.
+    + reflexivity.
+    + rewrite gtoks_cons, gtok_unfold. apply closed_child; [exact C|exact N|exact A|reflexivity|left; apply Nat.le_refl].
+    + rewrite <- gtok_unfold, <- gtoks_cons. apply (gens_chain "}" rest eq_refl eq_refl _ [] HG).
+  - (* DictComp *) apply andb_prop in Hc as [Hc Hgs]. apply andb_prop in Hc as [Hc Hlen]. apply andb_prop in Hc as [Hck Hcv].
+    destruct (P_use e1 IHe1 Hck) as [Ck [Nk Ak]]. destruct (P_use e2 IHe2 Hcv) as [Cv [Nv Av]].
+    pose proof (Forall_P_gens _ H Hgs) as HG.
+    cbn [app]. rewrite <- !app_assoc. cbn [app]. rewrite <- !app_assoc. cbn [app].
+    eapply Ev_expr_atom; [reflexivity| |exact Hloop].
+    destruct gs as [|g1 gt]; [discriminate|].
+    destruct g1 as [[[t1 i1] ifs1] a1]. inversion HG as [|? ? Hg1 _]; subst. destruct Hg1 as [-> _].
+    eapply (Ev_atom_dictcomp _ e1 _ e2 _ (Name "")).
+    + apply pp_head_not_key; [exact Ck|reflexivity].
+    + apply pp_head_not_key; [exact Ck|reflexivity].
+    + apply pp_head_nostar; assumption.
+    + apply closed_child; [exact Ck|exact Nk|exact Ak|reflexivity|left; apply Nat.le_refl].
+    + rewrite gtoks_cons, gtok_unfold. apply closed_child; [exact Cv|exact Nv|exact Av|reflexivity|left; apply Nat.le_refl].
+    + rewrite <- gtok_unfold, <- gtoks_cons. apply (gens_chain "}" rest eq_refl eq_refl _ [] HG).
   - (* IfExp *) apply andb_prop in Hc as [Hc Hc3]. apply andb_prop in Hc as [Hc1 Hc2].
     destruct (P_use e1 IHe1 Hc1) as [C1 [N1 A1]]. destruct (P_use e2 IHe2 Hc2) as [C2 [N2 A2]]. destruct (P_use e3 IHe3 Hc3) as [C3 [N3 A3]].
     cbn [safe] in Hs. apply safe_parts in Hs as [He Hsub]. cbn [node_prec] in Hp.
